@@ -21,7 +21,7 @@ def main():
         props[p['id']] = p
     tmpl = open(os.path.join(HERE, 'tools', 'seed_prompt.tmpl')).read()
     used = {}
-    for d in sorted(glob.glob(os.path.join(HERE, 'seeded', 'C*'))):
+    for d in sorted(glob.glob(os.path.join(HERE, 'seeded', 'C*')) + glob.glob(os.path.join(HERE, 'seeded', '_not_kept', 'C*'))):
         m = json.load(open(os.path.join(d, 'meta.json')))
         pid = m['property'] if isinstance(m.get('property'), str) else os.path.basename(d)[:3]
         used.setdefault(pid, []).append(str(m['summary'])[:330])
